@@ -224,11 +224,30 @@ func checkSuccess(c *reqgen.Config, v *reqgen.Verdict, o outcome) string {
 // checkErrorResponse: err != nil after a parseable request line, so the bytes
 // must be exactly one HTTP error response with the error text as body.
 func checkErrorResponse(c *reqgen.Config, v *reqgen.Verdict, b *reqgen.Built, o outcome, assertStatus bool) string {
+	var from reqgen.Origin
+	traced := false
+	if b != nil {
+		from, traced = b.Origin(o.err)
+	}
+	if traced && from.Reject {
+		rej, ok := o.err.(*ws.ConnectionRejectedError)
+		if !ok || rej.StatusCode() != from.Chosen {
+			return fmt.Sprintf("%s rejected with status %d, the returned error (%T) reports another StatusCode()", from.Who, from.Chosen, o.err)
+		}
+		if from.Chosen != 0 && !reqgen.StatusAsserted(from.Chosen) {
+			hx.Class("open/rejection with a status outside 3xx-5xx (or 304)")
+			return "" // nothing is promised for such a "rejection"; no 101 was checked by the caller
+		}
+	}
 	p, err := parseResponse(o.out)
 	if err != nil {
 		return fmt.Sprintf("failure (%v) but the bytes written are not one HTTP response: %v", o.err, err)
 	}
-	if p.status < 400 || p.status > 599 {
+	lowest := 400
+	if traced && from.Reject && from.Chosen != 0 {
+		lowest = 300 // a callback may reject with a redirect
+	}
+	if p.status < lowest || p.status > 599 {
 		return fmt.Sprintf("failure (%v) answered with status %d", o.err, p.status)
 	}
 	if len(p.rest) != 0 {
@@ -244,8 +263,8 @@ func checkErrorResponse(c *reqgen.Config, v *reqgen.Verdict, b *reqgen.Built, o 
 	if m := missingHeaders(p.hdr, c.ResponseHeaders()); m != "" {
 		return fmt.Sprintf("configured header %q missing from the %d response", m, p.status)
 	}
-	if b != nil {
-		if from, ok := b.Origin(o.err); ok {
+	if traced {
+		{
 			if p.status != from.Status {
 				return fmt.Sprintf("%s objected, status must be %d, written %d", from.Who, from.Status, p.status)
 			}
@@ -254,7 +273,7 @@ func checkErrorResponse(c *reqgen.Config, v *reqgen.Verdict, b *reqgen.Built, o 
 			}
 		}
 	}
-	if p.status == 426 {
+	if p.status == 426 && !traced {
 		ok := false
 		for _, val := range p.hdr.Values("Sec-Websocket-Version") {
 			if toks, strict := reqgen.StrictTokens(val); strict {
@@ -752,11 +771,15 @@ func TestExtensionLineGrid(t *testing.T) {
 		"ext-rej":  {Act: reqgen.ExtReject, Status: 403, Reason: "extension forbidden", Headers: []reqgen.HeaderKV{{Name: "X-Reject-Why", Value: "a"}}},
 		"ext-rej0": {Act: reqgen.ExtReject, Status: 0, Reason: "rejected without a status", Headers: []reqgen.HeaderKV{{Name: "X-Reject-Why", Value: "b c"}, {Name: "X-Rej-B", Value: "120"}}},
 		"ext-rej1": {Act: reqgen.ExtReject, Status: 0},
+		"ext-307":  {Act: reqgen.ExtReject, Status: 307, Reason: "moved", Headers: []reqgen.HeaderKV{{Name: "Location", Value: "https://example.com/ws"}}},
+		"ext-300":  {Act: reqgen.ExtReject, Status: 300},
+		"ext-599":  {Act: reqgen.ExtReject, Status: 599, Reason: "odd but legal"},
+		"ext-200":  {Act: reqgen.ExtReject, Status: 200, Reason: "not promised"},
 		"ext-pct":  {Act: reqgen.ExtReject, Status: 404, Reason: "no %2Fadmin for you, 100% denied %zz %"},
 		"ext-fmt":  {Act: reqgen.ExtPlainError, Reason: "%s%s%s %d %!"},
 	}
 	values := []string{"ext-acc; p=1", "ext-bare; q", "ext-dec", "ext-unknown; p", "ext-err", "ext-rej; p=1", "ext-rej0", "ext-rej1",
-		"ext-acc, ext-err", "ext-rej, ext-acc", "ext-pct", "ext-fmt", "ext-acc; =1", "ext-acc; p=\"1\"", ""}
+		"ext-acc, ext-err", "ext-rej, ext-acc", "ext-pct", "ext-fmt", "ext-307", "ext-300", "ext-599", "ext-200", "ext-acc; =1", "ext-acc; p=\"1\"", ""}
 	n := 0
 	var walk func(kind reqgen.Kind, mode reqgen.ExtMode, lines []string, depth int) bool
 	walk = func(kind reqgen.Kind, mode reqgen.ExtMode, lines []string, depth int) bool {
@@ -922,10 +945,10 @@ func TestEarlyEmptyLine(t *testing.T) {
 // and the rejection headers.
 func TestRejectionWithoutStatus(t *testing.T) {
 	n := 0
-	hdrs := [][]reqgen.HeaderKV{nil, {{Name: "X-Reject-Why", Value: "a"}}, {{Name: "X-Reject-Why", Value: "a"}, {Name: "Retry-After", Value: "120"}}}
+	hdrs := [][]reqgen.HeaderKV{nil, {{Name: "Location", Value: "https://example.com/elsewhere"}}, {{Name: "X-Reject-Why", Value: "a"}, {Name: "Retry-After", Value: "120"}}}
 	for _, reason := range append([]string{"", "no", "a longer reason text for the body"}, reqgen.HostileReasons...) {
 		for _, h := range hdrs {
-			for _, st := range []int{0, 401, 503, -1} {
+			for _, st := range []int{0, 401, 503, -1, 300, 301, 302, 303, 305, 307, 308, 399, 400, 426, 499, 500, 599, 100, 200, 204, 304, 600} {
 				for cb := 0; cb < 4; cb++ {
 					out := reqgen.Outcome{Kind: reqgen.CbReject, Status: st, Reason: reason, Headers: h}
 					if st < 0 { // plain error with the same text
